@@ -268,6 +268,11 @@ class CachedStore(Entity):
                 evict_key = self._eviction_policy.evict()
                 if evict_key is None:
                     break
+                if evict_key in self._dirty_keys and evict_key in self._cache:
+                    # Write-back: the victim holds data the backing store has
+                    # not seen yet; write it before it is dropped.
+                    self._backing_store.put_sync(evict_key, self._cache[evict_key])
+                    self._writebacks += 1
                 self._cache.pop(evict_key, None)
                 self._dirty_keys.discard(evict_key)
                 self._evictions += 1
